@@ -539,7 +539,7 @@ def _shard(task) -> Stats:
                 return
         check_tree(st, root_name, body, cfg["name"])
         count += 1
-        if (count + 7 * seed) % 997 == 1:
+        if count == 1 + (max(lo, 0) * 7 + seed * 13) % 23:  # at most one sample per shard; the seed only rotates which
             st.sample({"cfg": cfg["name"], "root_name": root_name, "body": json.loads(json.dumps(body))})
 
     for rn in cfg["roots"]:
@@ -574,8 +574,14 @@ def run(ctx):
     results = {}
     for t, st in pmap(_shard, tasks):
         results[t] = st
+    pool = []
     for t in tasks:  # merge in task order: the kept witness of a signature does not depend on scheduling
+        pool.extend(results[t].samples)
+        results[t].samples = []
         ctx.merge(results[t])
+    if pool:  # six samples spread over the whole enumeration (the seed only rotates which)
+        step = max(1, len(pool) // 6)
+        ctx.stats.samples = [pool[(ctx.seed * 5 + 3 + k * step) % len(pool)] for k in range(min(6, len(pool)))]
     ctx.bounds = {
         "configs": [{"name": c["name"], "root_names": list(c["roots"]), "levels": c["levels"], "trees_incl_overlap": sizes[c["name"]]}
                     for c in _configs(tier)],
